@@ -4,6 +4,38 @@ import json
 from . import common, hist, gen
 
 
+RAW_CMDS = ("cachechain", "dirchains", "filemap", "fileblocks", "hstate", "fblks", "atrack", "alog", "amark", "wlog", "wmark", "isfree")
+
+
+def followup(f):
+    """a history that replays the calls of a correspondence failure and then asks the property's oracles (cached and plain
+    listings, reference model, decoder) about the state: (L, first, nblocks, meta) or None"""
+    inp = f.get("input") or {}
+    S = inp.get("script")
+    if not S or not isinstance(S, list):
+        return None
+    L = [l for l in S if l.split() and l.split()[0] not in RAW_CMDS and not l.startswith("dump ") and l != "spectree"]
+    if not any(l.startswith("mount ") for l in L) or any(l.startswith("mkhd") or l.startswith("mkhdf") or l.startswith("loaddev") for l in L):
+        return None
+    while L and L[-1].split()[0] in ("umount", "umountdev", "closedev"):
+        L.pop()
+    handles = set()
+    dirs = ["-"]
+    for l in L:
+        t = l.split()
+        if t[0] == "open":
+            handles.add(t[1])
+        elif t[0] == "close":
+            handles.discard(t[1])
+        elif t[0] == "mkdir" and t[1] == "-" and t[2] not in dirs:
+            dirs.append(t[2])
+    L += ["close %s" % h for h in sorted(handles)]
+    for d in dirs[:4]:
+        L += ["list %s 1 0" % d, "list %s 0 0" % d]
+    L += ["free", "dump $W/imgFU1", "spectree", "umount", "umountdev", "dump $W/imgFU2", "spectree", "mountdev 0", "mount 0 0", "free", "list - 1 1", "umount", "umountdev"]
+    return L, 0, 1760, {"follow_up_of": f.get("what"), "call": inp.get("call")}
+
+
 def explore(ctx, proof, mine, builders, rule, assumptions, nontrivial=None, extra_cov=None, matches_finding=None, level="proof"):
     """mine: set of property ids whose findings count for this check (plus CRASH/TOOL);
        builders: list of (label, function(ctx) -> (L, first, nblocks, meta))"""
@@ -45,11 +77,22 @@ def explore(ctx, proof, mine, builders, rule, assumptions, nontrivial=None, extr
                     others[p] = others.get(p, 0) + 1
             if len(ctx.failures) >= 5:
                 break
-        # a broken proof obligation or translation with no failing input yet: search further (fresh histories from the same
-        # generators) before reporting no-failing-input-found
-        if ctx.failures or not proof["problems"] or rounds >= 4:
+        # a broken proof obligation, translation or correspondence with no failing input yet: search further before reporting
+        # no-failing-input-found - first with the calls on which a block-level correspondence disagreed (the model and the
+        # implementation part ways there: the property's own oracle is asked about exactly that state), then with fresh
+        # histories from the same generators
+        concrete = [f for f in ctx.failures if f["kind"] != "corr"]
+        corr = [f for f in ctx.failures if f["kind"] == "corr"]
+        if concrete or not (proof["problems"] or corr) or rounds >= 4:
             break
-        ctx.notes.append("proof obligations broken and no failing input in round %d: searching further" % rounds)
+        if rounds == 1 and corr:
+            fus = [followup(f) for f in corr]
+            fus = [x for x in fus if x]
+            if fus:
+                builders = [("follow-up of a correspondence disagreement", (lambda c, x=x: x)) for x in fus] + list(builders)
+                ctx.notes.append("correspondence disagreement without a failing input: judging the state after the disagreeing call (%d follow-up histories)" % len(fus))
+                continue
+        ctx.notes.append("proof obligations or correspondence broken and no failing input in round %d: searching further" % rounds)
     if first_fail and ctx.tier == "quick":
         # shrink the first failing history to a minimal operation sequence for the replay file
         L, first, nblocks, p, what, opts = first_fail
